@@ -8,7 +8,7 @@ import multiprocessing as mp
 from harness.par import RobustPool
 
 from harness.common import Check, NPROC, chunks
-from harness.tlc import run_tlc
+from harness.tlc import run_tlc, MachineryError
 from harness import puzzle_adapters as PA
 
 PID = "C11"
@@ -32,7 +32,7 @@ PLAN = {
     "aquarium": {"quick": [(1, 3, 0), (3, 1, 0), (2, 3, 200), (3, 2, 100), (3, 3, 100)], "thorough": [(1, 3, 0), (3, 1, 0), (2, 2, 0), (2, 3, 0), (3, 2, 0), (3, 3, 3000)]},
     "sudoku": {"quick": [(1, 1, 0), (2, 2, 150)], "thorough": [(1, 1, 0), (2, 2, 6000)]},
     "building": {"quick": [(1, 1, 0), (2, 2, 0), (3, 3, 150), (4, 4, 60)], "thorough": [(1, 1, 0), (2, 2, 0), (3, 3, 6000), (4, 4, 3000)]},
-    "doppelblock": {"quick": [(3, 3, 0), (4, 4, 150)], "thorough": [(3, 3, 0), (4, 4, 6000), (5, 5, 600)]},
+    "doppelblock": {"quick": [(3, 3, 0), (4, 4, 150)], "thorough": [(3, 3, 0), (4, 4, 6000)]},
     "fillomino": {"quick": [(1, 3, 0), (3, 1, 0), (2, 3, 150), (3, 3, 80)], "thorough": [(1, 1, 0), (1, 3, 0), (3, 1, 0), (2, 2, 0), (2, 3, 6000), (3, 2, 3000), (3, 3, 4000)]},
     "view": {"quick": [(1, 3, 0), (3, 1, 0), (2, 3, 150), (3, 3, 80)], "thorough": [(1, 3, 0), (3, 1, 0), (2, 2, 0), (2, 3, 0), (3, 2, 0), (3, 3, 6000)]},
     "geradeweg": {"quick": [(2, 2, 0), (2, 3, 150), (3, 3, 100)], "thorough": [(2, 2, 0), (2, 3, 0), (3, 2, 0), (3, 3, 6000), (3, 4, 1500)]},
@@ -57,14 +57,23 @@ def run(tier, seed):
 
     def one(job):
         pz, h, w, cnt, holes = job
-        return job, run_tlc("MC_Puzzle", "MC_Puzzle", workdir=chk.dir, timeout=2400, workers=1, heap="3g",
-                            env={"PUZZLE": pz, "BH": h, "BW": w, "COUNT": cnt, "SEED": seed % 1000, "HOLEMASK": holes})
+        try:
+            return job, run_tlc("MC_Puzzle", "MC_Puzzle", workdir=chk.dir, timeout=2400, workers=1, heap="3g",
+                                env={"PUZZLE": pz, "BH": h, "BW": w, "COUNT": cnt, "SEED": seed % 1000, "HOLEMASK": holes})
+        except MachineryError as e:
+            return job, e
+    failed = []
     with ThreadPoolExecutor(max_workers=12) as ex:
         for (pz, h, w, cnt, holes), res in ex.map(one, todo):
+            if isinstance(res, MachineryError):
+                failed.append(f"{pz} {h}x{w}: {str(res)[:160]}")
+                continue
             chk.add_tlc(res)
             cases += res.records
             covered.setdefault(pz, []).append(f"{h}x{w}:{len(res.records)}")
             chk.extra.setdefault("tlc_wall_s_per_board", {})[f"{pz} {h}x{w}"] = round(res.wall_s)
+    if failed:
+        raise MachineryError("TLC did not finish on %d board(s): " % len(failed) + " | ".join(failed))
     with RobustPool(NPROC) as pool:
         outs = pool.map(PA.work, chunks(cases, NPROC * 6))
     got = [x for o in outs for x in o]
